@@ -173,7 +173,7 @@ func checkC15(tier, replay string) int {
 	nscripts := 20
 	rep.Rule = fmt.Sprintf("%d generated IOS change scripts (routes incl. joined replacements, ACL sub-mode blocks with numbered inserts, deletes and joined moves) + 3 fixed ones; "+
 		"for each script every received line from the guarded 'configure terminal' to the deferred 'end' (every change command, the re-arm dialogue) and the lines up to write memory x banner form "+
-		"{before echo with own prompt, inside echo at 3 offsets, after echo without prompt, after echo with own prompt, after the regular prompt} x kind {2:00, 1:00, ABORTED (late)} x "+
+		"{before echo with own prompt, inside echo at 3 offsets, after echo without prompt, after the complete echo line without prompt, after echo with own prompt, after the regular prompt} x kind {2:00, 1:00, ABORTED (late)} x "+
 		"write chunking {one write, line by line with 7 ms gaps, prompt delayed}. Oracles: every change inside the armed window, write memory only after cancel and without rejected change, "+
 		"no reload pending after success, same exit status and same change-command sequence as the banner-free run, no spurious ERROR, re-arm dialogue right after a 1:00 banner. "+
 		"Non-trivial = banner was actually shown inside the session (reload pending or ABORTED kind). quick: seeded 1-in-4 hash sample of the product; thorough: all.", nscripts)
@@ -251,7 +251,7 @@ func checkC15(tier, replay string) int {
 					}
 				}
 				forms := []string{"before-own-prompt", "inside@1", fmt.Sprintf("inside@%d", len(e.Raw)/2),
-					fmt.Sprintf("inside@%d", max(len(e.Raw)-1, 0)), "after-no-prompt", "after-own-prompt", "after-prompt"}
+					fmt.Sprintf("inside@%d", max(len(e.Raw)-1, 0)), "after-no-prompt", "after-line-no-prompt", "after-own-prompt", "after-prompt"}
 				for _, f := range forms {
 					if e.Raw == "" && strings.HasPrefix(f, "inside") {
 						continue
